@@ -272,6 +272,7 @@ impl EventGen for GroupElement {
         let evaluated_el = new_el.clone();
 
         // push variables onto the stack: the attributes as evaluated in the enclosing scope
+        context.check_scope_vars(&self.0, &evaluated_el)?;
         context.push_element(&evaluated_el);
 
         let mut content_bb = None;
